@@ -42,6 +42,7 @@ func (d *ManyToOne) Set(data GenericDataType) {
 	for {
 		writeIndex := atomic.AddUint64(&d.writeIndex, 1)
 		idx := writeIndex % uint64(len(d.buffer))
+	retry:
 		old := atomic.LoadPointer(&d.buffer[idx])
 
 		if old != nil &&
@@ -58,7 +59,13 @@ func (d *ManyToOne) Set(data GenericDataType) {
 
 		if !atomic.CompareAndSwapPointer(&d.buffer[idx], old, unsafe.Pointer(newBucket)) {
 			log.Println("Diode set collision: consider using a larger diode")
-			continue
+			// The slot changed under us (the reader took the old bucket, or
+			// another writer got there first). Claiming a new position here
+			// would leave this one empty for good: the reader waits on it and
+			// everything written behind it stays undelivered until the ring
+			// laps. Look at the same slot again instead; if it now holds a
+			// newer bucket the check above moves on to a new position.
+			goto retry
 		}
 
 		return
